@@ -346,14 +346,15 @@ theorem sender_never_interrupts (s : Station) (apps : Apps) (att : Attempt) (te 
     SupervisesQuietly att s apps polls :=
   sender_run att s.p polls s apps te hinv hon hst hl rfl hd
 
-/-! Non-vacuity of part 2: station 3 supervising (stamp 0, `Tslot` = 400 µs); the successor's token
+/-! Non-vacuity of part 2: station 5 supervising (stamp 0, `Tslot` = 400 µs); the successor's token
 trickles in: nothing at 100 µs, one byte at 300 µs, two at 650 µs (more than a slot time after the
 stamp 0, but a new byte is pending), still two at 900 µs (≤ 650 + 400). -/
+def pA : Params := { pEx with address := 5 }
 def sA : Station :=
-  { (Station.new pEx) with online := true, st := .checkTokenPass .first, lastBusActivity := some 0 }
+  { (Station.new pA) with online := true, st := .checkTokenPass .first, lastBusActivity := some 0 }
 
 theorem sA_inv : Inv sA [] := by
-  have h := inv_new pEx [] (by decide) (by decide) (by intro s hs; cases hs)
+  have h := inv_new pA [] (by decide) (by decide) (by intro s hs; cases hs)
   exact ⟨h.addr, h.hsa, h.ring, fun ho => by simp [sA] at ho, h.gap, fun a ha => by simp [sA] at ha,
     fun a ha => by simp [sA] at ha, h.app, fun a d ha => by simp [sA] at ha, h.scripts, by simp [sA]⟩
 
@@ -361,5 +362,158 @@ example : SupervisesQuietly .first sA [] [(100, []), (300, [0xDC]), (650, [0xDC,
   sender_never_interrupts sA [] .first 0 sA_inv rfl rfl rfl _ (by
     show Dense 400 0 0 _
     simp [Dense])
+
+/-! ### Part 3 — arithmetic composition of the two sides
+
+Pure arithmetic about poll times and character arrival times; the station models enter only through
+the conclusions of parts 1 and 2.  Named bus hypotheses:
+* `tb` — the instant the last character of A's token telegram is on the bus; `tb ≤ te + E` where `te` is
+  A's stamp (its *predicted* end, `floor`) and `E` the rounding slack (`E = 1` µs on the bus of DESIGN 5.1,
+  where a character ends at `ceil`);
+* B's accepting poll `p1` is its first poll that sees the complete token: `tb ≤ p1 ≤ tb + P_B`;
+* `C` — the time after the start `q` of B's transmission at which its first character is in A's
+  receive buffer (`C = ceil(11 bit) ≤ bits 11 + 1`);
+* `Arrivals n arr vis` — characters of B's telegram become visible to A one by one at the times `arr k`,
+  consecutive ones at most a slot time apart. -/
+
+/-- **The margin condition**: rounding slack + two poll periods of the receiver + the synchronisation
+pause + one character time fit into the sender's slot time. -/
+def Margin (slot b33 E PB C : Nat) : Prop := E + 2 * PB + b33 + C ≤ slot
+
+/-- **`handover_first_char`** (arithmetic).  With B's first transmitting poll `q ∈ (p1 + 33 bit,
+p1 + 33 bit + P_B]` (part 1, timed form) and `Margin`: B starts later than 33 bit times after the real
+end `tb` of A's telegram, and B's first character is complete at `q + C ≤ te + Tslot` — before every
+poll of A that could find the slot time expired (`a > te + Tslot`). -/
+theorem handover_first_char (slot b33 E PB C : Nat) (te tb p1 q : Int) (hm : Margin slot b33 E PB C)
+    (hE : tb ≤ te + E) (hp1 : tb ≤ p1) (hp1' : p1 ≤ tb + PB) (hq : p1 + b33 < q) (hq' : q ≤ p1 + b33 + PB) :
+    tb + b33 < q ∧ q + C ≤ te + slot ∧ ∀ a : Int, te + slot < a → q + C < a := by
+  unfold Margin at hm
+  refine ⟨by omega, by omega, fun a ha => by omega⟩
+
+/-- The margin is also necessary for this argument: if it fails by one microsecond there are poll times
+satisfying all hypotheses with B's first character complete only AFTER `te + Tslot` (A polling in between
+retransmits). -/
+theorem margin_tight (slot b33 E PB C : Nat) (te : Int) (hPB : 0 < PB) (hm : ¬ Margin slot b33 E PB C) :
+    ∃ tb p1 q : Int, tb ≤ te + E ∧ tb ≤ p1 ∧ p1 ≤ tb + PB ∧ p1 + b33 < q ∧ q ≤ p1 + b33 + PB ∧
+      te + slot < q + C := by
+  unfold Margin at hm
+  exact ⟨te + E, te + E + PB, te + E + PB + b33 + PB, by omega, by omega, by omega, by omega, by omega, by omega⟩
+
+/-- **`margin_of_quarter_slot`**: for receiver poll periods `P_B ≤ Tslot/4` (DESIGN 5.2) the margin with
+`E = 1`, `C = bits 11 + 1` (bus of DESIGN 5.1: characters end at `ceil`) holds whenever
+`88·10⁶ + 4·rate ≤ slotBits·10⁶`, i.e. `slotBits ≥ 88 + 4·rate/10⁶` (92 bit up to 1 Mbit/s, 94 at
+1.5 Mbit/s, 136 at 12 Mbit/s; the standard slot times 100 … 1000 satisfy it).  The floors of
+`bits_to_time` are accounted for: `bits 33 + bits 11 ≤ floor(44·10⁶/rate)`, `2·floor(44·10⁶/rate) ≤
+floor(88·10⁶/rate)`, `floor((88·10⁶ + 4·rate)/rate) = floor(88·10⁶/rate) + 4`. -/
+theorem margin_of_quarter_slot (p : Params) (PB : Nat) (hr : 0 < p.rate) (hP : PB ≤ p.slotTime / 4)
+    (hs : 88 * 1000000 + 4 * p.rate ≤ p.slotBits * 1000000) :
+    Margin p.slotTime (p.bits 33) 1 PB (p.bits 11 + 1) := by
+  unfold Margin Params.slotTime Params.bits bitsToTime at *
+  have h1 : 33 * 1000000 / p.rate + 11 * 1000000 / p.rate ≤ 44 * 1000000 / p.rate := by
+    rw [Nat.le_div_iff_mul_le hr, Nat.add_mul]
+    have a := Nat.div_mul_le_self (33 * 1000000) p.rate
+    have b := Nat.div_mul_le_self (11 * 1000000) p.rate
+    omega
+  have h2 : 2 * (44 * 1000000 / p.rate) ≤ 88 * 1000000 / p.rate := by
+    rw [Nat.le_div_iff_mul_le hr]
+    have a := Nat.div_mul_le_self (44 * 1000000) p.rate
+    rw [Nat.mul_assoc]
+    omega
+  have h3 : 88 * 1000000 / p.rate + 4 ≤ p.slotBits * 1000000 / p.rate := by
+    have := Nat.div_le_div_right (c := p.rate) hs
+    rw [Nat.add_mul_div_right _ _ hr] at this
+    exact this
+  omega
+
+/-- The idealised variant without rounding slack (`E = 0`, `C = bits 11`): `slotBits ≥ 88` suffices. -/
+theorem margin_of_quarter_slot_ideal (p : Params) (PB : Nat) (hr : 0 < p.rate) (hP : PB ≤ p.slotTime / 4)
+    (hs : 88 ≤ p.slotBits) : Margin p.slotTime (p.bits 33) 0 PB (p.bits 11) := by
+  unfold Margin Params.slotTime Params.bits bitsToTime at *
+  have h1 : 33 * 1000000 / p.rate + 11 * 1000000 / p.rate ≤ 44 * 1000000 / p.rate := by
+    rw [Nat.le_div_iff_mul_le hr, Nat.add_mul]
+    have a := Nat.div_mul_le_self (33 * 1000000) p.rate
+    have b := Nat.div_mul_le_self (11 * 1000000) p.rate
+    omega
+  have h2 : 2 * (44 * 1000000 / p.rate) ≤ 88 * 1000000 / p.rate := by
+    rw [Nat.le_div_iff_mul_le hr]
+    have a := Nat.div_mul_le_self (44 * 1000000) p.rate
+    rw [Nat.mul_assoc]
+    omega
+  have h3 : 88 * 1000000 / p.rate ≤ p.slotBits * 1000000 / p.rate :=
+    Nat.div_le_div_right (Nat.mul_le_mul_right _ hs)
+  omega
+
+/-- **Part 3, `handover_no_collision`** (two stations, one hand-over).
+Station A supervises its pass (`CheckTokenPass att`, stamp `te`, nothing pending).  Station B is idle and
+its poll at `p1` is the first that sees A's complete token (`tb ≤ p1 ≤ tb + P_B`, `tb ≤ te + E` the real end
+of the token on the bus); afterwards B is polled at `tB 0, tB 1, …` with gaps `≤ P_B` on a silent bus.
+Under `Margin Tslot (33 bit) E P_B C`:
+1. B accepts at `p1`, transmits at none of its polls up to `p1 + 33 bit`, and transmits (application
+   telegram, GAP poll or token) at its first later poll `q = tB n`, where `tb + 33 bit < q` — B does not
+   start before the synchronisation pause after the REAL end of A's telegram — and `q + C ≤ te + Tslot`;
+2. whatever B's telegram (`nb > 0` characters), if its characters reach A according to an arrival model
+   with the first character complete by `q + C` and consecutive characters at most a slot time apart,
+   then for EVERY time-ordered sequence of polls of A that see the corresponding prefixes (only the last
+   may see the whole telegram): every poll returns regularly, A transmits nothing — it never retransmits
+   into B's transmission — until it has heard B's complete telegram. -/
+theorem handover_no_collision
+    (sA : Station) (appsA : Apps) (att : Attempt) (te : Int) (hinvA : Inv sA appsA) (honA : sA.online = true)
+    (hstA : sA.st = .checkTokenPass att) (hlA : sA.lastBusActivity = some te) (hpbA : sA.pendingBytes = 0)
+    (sB : Station) (appsB : Apps) (p1 : Int) (rx rx' : Bytes) (np : Option Nat) (coll : Nat)
+    (da sa : UInt8) (ret : Bool) (hinv : Inv sB appsB) (hon : sB.online = true) (hst : sB.st = .activeIdle none np coll)
+    (hlate : ∀ l, sB.lastBusActivity = some l → l < p1) (hto : 0 < sB.p.tokenLostTimeout)
+    (hfresh : sB.pendingBytes < rx.length ∨ ∃ l, sB.lastBusActivity = some l ∧ p1 < l + (sB.p.tokenLostTimeout : Nat))
+    (hrx : receiveAll rx = .done rx' [(.token da sa, true)] ret)
+    (hda : da.toNat = sB.p.address) (hsa : sa.toNat ≠ sB.p.address) (hsrc : sa.toNat = sB.ring.ps ∨ np = some sa.toNat)
+    (tB : Nat → Int) (PB : Nat) (h0 : tB 0 ≤ p1 + PB) (hgap : ∀ i, tB (i + 1) ≤ tB i + PB)
+    (hgo : ∃ k, p1 + (sB.p.bits 33 : Nat) < tB k)
+    (tb : Int) (E C : Nat) (hE : tb ≤ te + E) (hp1 : tb ≤ p1) (hp1' : p1 ≤ tb + PB)
+    (hm : Margin sA.p.slotTime (sB.p.bits 33) E PB C) :
+    ∃ c1 n, sB.poll appsB p1 false rx = .ok c1 ∧ c1.tx = none ∧
+      QuietThenTx sB.p.address c1.s c1.apps ((List.range n).map tB) (tB n) ∧
+      tb + (sB.p.bits 33 : Nat) < tB n ∧ tB n + C ≤ te + (sA.p.slotTime : Nat) ∧
+      ∀ (nb : Nat) (arr : Nat → Int) (vis : Int → Nat), 0 < nb → Arrivals nb arr vis → arr 0 ≤ tB n + C →
+        (∀ k, k + 1 < nb → arr (k + 1) ≤ arr k + (sA.p.slotTime : Nat)) →
+        ∀ polls : List (Int × Bytes), polls.Pairwise (fun x y => x.1 ≤ y.1) →
+          (∀ x ∈ polls, x.2.length = vis x.1) → (∀ x ∈ polls, ∀ y ∈ polls, x.1 < y.1 → vis x.1 < nb) →
+          SupervisesQuietly att sA appsA polls := by
+  obtain ⟨c1, h1, h2, -, -, -, h6, h7, -, h9, h10⟩ :=
+    token_accepted_idle sB appsB p1 rx rx' np coll da sa ret hon hst hlate hto hfresh hrx hda hsa hsrc
+  obtain ⟨c', hc', hinv', -⟩ := pollInner_good { s := sB, apps := appsB, rx := rx } p1 false hinv rfl
+  have : c' = c1 := by
+    have h1' : pollInner { s := sB, apps := appsB, rx := rx } p1 false = .ok c1 := h1
+    rw [hc'] at h1'; cases h1'; rfl
+  subst this
+  obtain ⟨n, hn1, hn2, hq⟩ := holder_starts_timed c'.s c'.apps p1 ⟨p1, none⟩ false hinv' h10 h6 h7 tB PB h0 hgap
+    (by rw [h9]; exact hgo)
+  rw [h9] at hn1 hn2 hq
+  obtain ⟨f1, f2, -⟩ := handover_first_char sA.p.slotTime (sB.p.bits 33) E PB C te tb p1 (tB n) hm hE hp1 hp1' hn1 hn2
+  refine ⟨c', n, h1, h2, hq, f1, f2, ?_⟩
+  intro nb arr vis hnb hA harr0 hgapc polls hpw hlen hinc
+  refine sender_never_interrupts sA appsA att te hinvA honA hstA hlA polls ?_
+  rw [hpbA]
+  exact dense_of_arrivals sA.p.slotTime nb arr vis hA hgapc polls te 0 hpw hlen hinc (fun _ _ _ => Nat.zero_le _)
+    (fun _ => by omega) (fun h0 => by omega)
+
+/-! Non-vacuity of part 3: A = station 5 (`sA`: stamp `te = 0`, `Tslot` = 400 µs), B = station 3 (`sB`) whose
+first poll seeing the token 5→3 is at 50 µs and which is then polled every 40 µs (`P_B` = 100 µs = `Tslot/4`);
+`tb = 1`, `E = 1`, `C = bits 11 + 1 = 23` µs; the margin is `margin_of_quarter_slot`. -/
+example : Margin pA.slotTime (pEx.bits 33) 1 100 (pEx.bits 11 + 1) :=
+  margin_of_quarter_slot pA 100 (by decide) (by decide) (by decide)
+
+example := handover_no_collision sA [] .first 0 sA_inv rfl rfl rfl rfl
+  sB [] 50 (sendToken 3 5) [] (some 5) 0 3 5 true sB_inv rfl rfl
+  (by intro l hl; cases hl; decide) (by decide) (.inl (by decide)) (receiveAll_token 3 5) rfl (by decide) (.inr rfl)
+  (fun i => 50 + 40 * ((i : Int) + 1)) 100 (by decide) (by intro i; omega) ⟨1, by decide⟩
+  1 1 (pEx.bits 11 + 1) (by decide) (by decide) (by decide)
+  (margin_of_quarter_slot pA 100 (by decide) (by decide) (by decide))
+
+/-- An arrival model: three characters visible from 1110, 1120, 1130 µs. -/
+example : Arrivals 3 (fun k => 1100 + 10 * ((k : Int) + 1))
+    (fun a => if a < 1110 then 0 else if a < 1120 then 1 else if a < 1130 then 2 else 3) :=
+  ⟨fun a k hk => by
+      have : k = 0 ∨ k = 1 ∨ k = 2 := by omega
+      rcases this with rfl | rfl | rfl <;> split <;> (try split) <;> (try split) <;> omega,
+   fun a => by split <;> (try split) <;> (try split) <;> omega⟩
 
 end PV.C01
